@@ -639,13 +639,30 @@ pub(super) fn translate_sstring(
 ///
 /// Returns a tuple of `(start, end)`, where `end` is optional.
 pub(super) fn range_of_ranges(ranges: Vec<Range<rq::Expr>>) -> Result<Range<i64>> {
+    fn overflow() -> Error {
+        Error::new_simple("take range is too large")
+    }
+    // a + b - 1, failing instead of overflowing
+    fn shift(a: i64, b: i64) -> Result<i64> {
+        a.checked_add(b)
+            .and_then(|x| x.checked_sub(1))
+            .ok_or_else(overflow)
+    }
+
     let mut current = Range::default();
     for range in ranges {
         let mut range = try_range_into_int(range)?;
 
         // b = b + a.start -1 (take care of 1-based index!)
-        range.start = range.start.or_map(current.start, |a, b| a + b - 1);
-        range.end = range.end.map(|b| current.start.unwrap_or(1) + b - 1);
+        range.start = match (range.start, current.start) {
+            (Some(a), Some(b)) => Some(shift(a, b)?),
+            (a, None) => a,
+            (None, b) => b,
+        };
+        range.end = range
+            .end
+            .map(|b| shift(current.start.unwrap_or(1), b))
+            .transpose()?;
 
         // b.end = min(a.end, b.end)
         range.end = current.end.or_map(range.end, i64::min);
